@@ -63,6 +63,28 @@ def run(tier, seed):
             if il2.startswith("OK"):
                 stored_count = fw.rd_i(il2.split()[2])
         registered.append((f"{fmt}/{kind}", cred, stored_id, stored_key, stored_count))
+    # rare but conformant shapes: Ed25519 key whose encoding starts with 0x00; short DER ECDSA signatures
+    edz = authsim.ed_cred_leading_zero()
+    for fmt in ("none", "packed-self"):
+        s = regsim.RScn(fmt, "EdDSA")
+        s.k["cose_bytes"] = edz.cose_bytes
+        if fmt == "packed-self":
+            s.k["signer"] = edz
+        pd, reg = regsim.build(s)
+        reg.cred = edz
+        pol = regrun.policy_of(pd)
+        il, ml = B.run_case(pol, reg, "dict", "accept", f"register/{fmt}/ed25519-leading-zero-key", scn=s)
+        cdj = authsim.client_data("webauthn.get", b"c" * 16, "https://example.com")
+        ad = authsim.authdata("example.com", 0x05, 9)
+        a = authsim.Assertion(edz, s.cred_id, cdj, ad, edz.sign(ad + hashlib.sha256(cdj).digest()))
+        A.run_case(impl.AuthPolicy(b"c" * 16, "example.com", "https://example.com", edz.cose_bytes, 0, False), a, "record", "accept", "authenticate-after/ed25519-leading-zero-key")
+    for kind in ("ES256-P256", "ES256-P384", "ES512-P521"):
+        c = authsim.Cred(kind)
+        cdj = authsim.client_data("webauthn.get", b"d" * 16, "https://example.com")
+        ad = authsim.authdata("example.com", 0x05, 3)
+        sig = authsim.short_ecdsa_signature(c, ad + hashlib.sha256(cdj).digest(), tries=(3000 if quick else 20000))
+        a = authsim.Assertion(c, b"short-sig", cdj, ad, sig)
+        A.run_case(impl.AuthPolicy(b"d" * 16, "example.com", "https://example.com", c.cose_bytes, 0, False), a, "record", "accept", f"authenticate/short-der-signature-{len(sig)}B/{kind}")
     chk.sample({"chain": "register(packed, RS256) -> authenticate x2 with returned id/key/count", "registered": len(registered)})
     # cross-credential confusion over ordered pairs (after the successful logins above)
     pairs = [(x, y) for x in registered for y in registered if x is not y and x[3] != y[3]]
